@@ -68,8 +68,9 @@ name: array_remove_at
 define: U_REMOVE_AT
 src: array.c
 enforce: spif_array_remove_at
-backend: z3,sat
-timeout: 150
+backend: sat
+flags: --slice-formula
+timeout: 600
 */
 #ifdef U_REMOVE_AT
 /* remove_at(i): normalised position n outside [0,len) -> NULL, nothing changes.  Otherwise the
@@ -104,6 +105,7 @@ src: array.c
 enforce: spif_array_insert_at
 backend: sat
 flags: --slice-formula
+timeout: 600
 */
 /*@unit
 name: array_insert_at.neg
@@ -112,6 +114,7 @@ src: array.c
 enforce: spif_array_insert_at
 backend: sat
 flags: --slice-formula
+timeout: 600
 */
 /*@unit
 name: array_insert_at.mid
@@ -120,6 +123,7 @@ src: array.c
 enforce: spif_array_insert_at
 backend: sat
 flags: --slice-formula
+timeout: 600
 */
 /*@unit
 name: array_insert_at.grow
@@ -128,6 +132,7 @@ src: array.c
 enforce: spif_array_insert_at
 backend: sat
 flags: --slice-formula
+timeout: 600
 */
 #ifdef U_INSERT_AT
 /* insert_at(x, i), n = normalised position:
@@ -177,6 +182,7 @@ src: array.c
 enforce: spif_array_prepend
 backend: sat
 flags: --slice-formula
+timeout: 600
 */
 #ifdef U_PREPEND
 static spif_bool_t spif_array_prepend(spif_array_t self, spif_obj_t obj)
@@ -305,6 +311,7 @@ src: array.c
 enforce: spif_array_remove
 backend: sat
 flags: --slice-formula
+timeout: 600
 loops: 1
 */
 #ifdef U_REMOVE
